@@ -6,25 +6,21 @@ Quote1 == 39
 Quote2 == 34
 Backslash == 92
 Percent == 37
+NormalMode(c) == IF c = Quote1 THEN "single" ELSE IF c = Quote2 THEN "double" ELSE IF c = Backslash THEN "escape" ELSE IF c = Percent THEN "percent" ELSE "normal"
 RECURSIVE ScanFrom(_, _, _)
 ScanFrom(t, pos, mode) ==
   IF pos > Len(t)
   THEN CASE mode = "normal" -> "Ok"
-         [] mode \in {"single", "double", "single_escape", "double_escape"} -> "Error_missing_end_quote"
-         [] mode = "escape" -> "Error_escape_at_end"
+         [] mode \in {"single", "double"} -> "Error_missing_end_quote"
+         [] mode \in {"escape", "single_escape", "double_escape"} -> "Error_escape_at_end"
          [] mode = "percent" -> "Error_percent_at_end"
   ELSE LET c == t[pos] IN
-       CASE mode = "normal" ->
-              (IF c = Quote1 THEN ScanFrom(t, pos + 1, "single")
-               ELSE IF c = Quote2 THEN ScanFrom(t, pos + 1, "double")
-               ELSE IF c = Backslash THEN ScanFrom(t, pos + 1, "escape")
-               ELSE IF c = Percent THEN (IF pos = 1 THEN ScanFrom(t, pos + 1, "percent") ELSE "Error_percent_not_at_start")
-               ELSE ScanFrom(t, pos + 1, "normal"))
+       CASE mode = "normal" -> ScanFrom(t, pos + 1, NormalMode(c))
          [] mode = "single" -> ScanFrom(t, pos + 1, IF c = Quote1 THEN "normal" ELSE IF c = Backslash THEN "single_escape" ELSE "single")
          [] mode = "double" -> ScanFrom(t, pos + 1, IF c = Quote2 THEN "normal" ELSE IF c = Backslash THEN "double_escape" ELSE "double")
          [] mode = "single_escape" -> ScanFrom(t, pos + 1, "single")
          [] mode = "double_escape" -> ScanFrom(t, pos + 1, "double")
          [] mode = "escape" -> ScanFrom(t, pos + 1, "normal")
-         [] mode = "percent" -> IF c = Percent THEN "Error_percent_doubled" ELSE ScanFrom(t, pos + 1, "normal")
+         [] mode = "percent" -> IF c = Percent THEN "Error_percent_doubled" ELSE ScanFrom(t, pos + 1, NormalMode(c))
 Scan(t) == ScanFrom(t, 1, "normal")
 =============================================================================
